@@ -492,6 +492,53 @@ func writeConc(pkgs []*packages.Package, byPath map[string]*packages.Package, pa
 		ck = append(ck, k)
 	}
 	sort.Strings(ck)
+	// synchronisation primitives of package sync / sync/atomic used by the module, other than sync.WaitGroup: the
+	// ownership-and-channels model of C17 / C18 is complete only if there are none
+	otherSync := map[string]bool{}
+	for _, p := range pkgs {
+		if p.Types == nil || p.TypesInfo == nil || !strings.HasPrefix(p.PkgPath, modPath) || strings.Contains(p.PkgPath, "cmd/verifharness") {
+			continue
+		}
+		for _, obj := range p.TypesInfo.Uses {
+			if obj == nil || obj.Pkg() == nil {
+				continue
+			}
+			pp := obj.Pkg().Path()
+			if pp != "sync" && pp != "sync/atomic" {
+				continue
+			}
+			name := obj.Name()
+			if fn, ok := obj.(*types.Func); ok {
+				if sig, ok := fn.Type().(*types.Signature); ok && sig.Recv() != nil {
+					rt := sig.Recv().Type()
+					if pt, ok := rt.(*types.Pointer); ok {
+						rt = pt.Elem()
+					}
+					if nt, ok := rt.(*types.Named); ok {
+						name = nt.Obj().Name() + "." + name
+					}
+				}
+			}
+			if name == "WaitGroup" || strings.HasPrefix(name, "WaitGroup.") {
+				continue
+			}
+			otherSync[p.Types.Name()+": "+obj.Pkg().Name()+"."+name] = true
+		}
+	}
+	var osk []string
+	for k := range otherSync {
+		osk = append(osk, k)
+	}
+	sort.Strings(osk)
+	b.WriteString("/-- uses of package sync / sync/atomic other than sync.WaitGroup (mutexes, pools, atomics, Once, Cond …) -/\n")
+	b.WriteString("def otherSync : List String := [")
+	for i, k := range osk {
+		if i > 0 {
+			b.WriteString(", ")
+		}
+		b.WriteString(leanString(k))
+	}
+	b.WriteString("]\n\n")
 	b.WriteString("def chanCaps : List (String × Nat) := [")
 	for i, k := range ck {
 		if i > 0 {
